@@ -287,6 +287,11 @@ pub fn corpus() -> Vec<(&'static str, &'static str)> {
 }
 
 fn run_pipeline_checked(ctx: &mut RunCtx<'_>, texts: &[String], what: &str) -> Option<Violation> {
+    if ctx.is_lifted("dry-no-pipeline") {
+        // harness aid: shows the input of a run whose pipeline kills the process (`sim tape`)
+        ctx.note(|| format!("{what}: input that would enter the pipeline:\n{}", texts.join("\n-----\n")));
+        return None;
+    }
     match pipeline(texts) {
         Ok(reach) => {
             ctx.counters.inc("c14.pipeline_runs");
